@@ -137,6 +137,8 @@ class TreeGen(object):
             return "one"
         ids = [c[1] for c in kids]
         sync = rng.choice("01")
+        if not ids and self.p.invalid_policy == 0:
+            return "all:" + sync
         if rng.random() < self.p.invalid_policy or not ids:
             bad = rng.choice([[], [9999], ids[:1] + [9999]])
             return "sel:%s:%s" % (sync, ",".join(str(i) for i in bad))
